@@ -366,7 +366,13 @@ class World(object):
                 and not prune_dict(self.funcs[op[1]].decomposition_dict):
             return "(* skipped *)", []
         if k == "Stationary":
-            x = self.funcs[op[1]].stationary_point()
+            fn = self.funcs[op[1]]
+            # both spellings of the documented option: asking for the triple records nothing more than the stationary
+            # sample (the samples of every function are dumped after the op) -- seed C07-11: output built by re-querying
+            if len(fn.list_of_points) % 2 == 0:
+                x = fn.stationary_point()
+            else:
+                x, g_, f_ = fn.stationary_point(return_gradient_and_function_value=True)
             return "(Stationary %s)" % coq_nat(op[1]), [self.dump_p(x)]
         if k == "Fixed":
             x, gx, fx = self.funcs[op[1]].fixed_point()
